@@ -86,6 +86,7 @@ void   w_cb(uint8_t kind, uint32_t a, uint32_t b, uint32_t c);
 /* optional hooks the harness may set */
 extern void (*w_lock_hook)(int lock);      /* called from COTmrLock(1)/COTmrUnlock(0) */
 extern void (*w_send_hook)(const WFrame *f);
+extern void (*w_cb_hook)(uint8_t kind, uint32_t a, uint32_t b, uint32_t c);   /* called from inside every logged application callback: the place where an application calls back into the stack */
 extern void (*w_prehash)(int phase);       /* phase 0: canonicalise dead fields before hashing; phase 1: restore them */
 
 /* safety monitor evaluated after every step: returns NULL if fine, else a static description */
